@@ -70,6 +70,14 @@ Theorem C20_stake_accounting : forall A I W e h t s i, universe A I -> supply_bo
 Proof. exact run_tx_stake. Qed.
 Print Assumptions C20_stake_accounting.
 
+(* for every history: the stake of miner i after the chain = its stake before + everything the successful
+   apply / add / refund transactions of the chain booked for it *)
+Theorem C20_stake_history : forall A I W e bs s i, universe A I -> supply_bound W ->
+  Forall (fun b => txs_closed A I (snd b)) bs -> led_inv A I W s ->
+  stake_of (run_chain e bs s) i = stake_of s i + booked_chain e bs s i.
+Proof. exact run_chain_stake. Qed.
+Print Assumptions C20_stake_history.
+
 (* ---- a rejected transaction changes nothing but the fee ---- *)
 (* (in the model the revert is exact; that AccountDB.RevertToSnapshot restores the state is property C04; the
    refund requests of the executor context are outside the snapshot and are shown untouched here) *)
